@@ -33,8 +33,12 @@ class Rel:
     child_cols: tuple = ()             # alias column list applied to FROM item 0: (SELECT ...) AS t(p, q) / WITH c(p, q) AS (...)
 
 
-def base(table):
+def base(table, alias=None):
     cols = tuple((c, frozenset({f"{table}.{c}"})) for c in SCHEMA[table])
+    if alias:
+        # the base table under an alias that is ALSO the name / alias of another base table elsewhere in the query: what a name
+        # denotes is a matter of scope, never of the name's text
+        return Rel(f"SELECT {', '.join(alias + '.' + c for c in SCHEMA[table])} FROM {table} AS {alias}", (), (), cols, (f"base.{table}_as_{alias}",), 0)
     return Rel(f"SELECT {', '.join(SCHEMA[table])} FROM {{f0}}", (table,), (), cols, (f"base.{table}",), 0)
 
 
@@ -185,7 +189,7 @@ CORE_TOP = ("project", "star", "agg", "union", "join", "alias_cols", "scalar_uni
 
 
 def relations(k: int):
-    level0 = [base("x"), base("y")]
+    level0 = [base("x"), base("y"), base("y", alias="x")]
     allr = {0: level0}
     seen = {render_inline(r) for r in level0}
     out = list(level0)
@@ -196,6 +200,8 @@ def relations(k: int):
             for w in wrappers(r, others if cost <= 3 else others[:4]):
                 if w.cost != cost:
                     continue
+                if any(t_.endswith("_as_x") for t_ in w.tags) and (w.tags[-1] not in ("project", "union", "join", "self_join", "star") or cost > 2):
+                    continue   # the re-aliased base table only under the wrappers that put two base tables side by side (and one more level)
                 if cost >= 4 and w.tags[-1] not in CORE_TOP:
                     continue   # the 4th (outermost) wrapper ranges over the core menu only (the full menu gives 228 k relations)
                 key = render_inline(w)
@@ -208,7 +214,8 @@ def relations(k: int):
 
 
 def leaves(node) -> frozenset:
-    return frozenset(n.name for n in node.walk() if isinstance(n.expression, exp.Table))
+    # a leaf is named alias.column; the base table is the Table expression it carries (an alias says nothing about the table)
+    return frozenset(f"{n.expression.name}.{n.name.split('.')[-1]}" for n in node.walk() if isinstance(n.expression, exp.Table))
 
 
 def check_rel(r: Rel, res, record):
